@@ -107,7 +107,11 @@ func verifServerFeed(e *Engine, stream []byte) (*verifSeen, error, *verifNetConn
 	})
 	conn := &verifNetConn{failAt: -1}
 	p := NewParser(conn, e, NewServerProcessor(), false, nil)
+	panics0 := verifPanicCount()
+	verifStepBudget(600000)
 	err := p.Parse(append([]byte(nil), stream...))
+	verifStepBudgetEnd()
+	verifAssertD(verifPanicCount() == panics0, "no-panic-inside-parse", "server-feed")
 	return seen, err, conn
 }
 
@@ -300,3 +304,48 @@ func verifHarness_C08_max_body_size() {
 }
 
 var _ = io.EOF
+
+
+// numeric framing fields over their whole range: 19 symbolic decimal digits
+// (Content-Length) / 16 symbolic hex digits (chunk size) with body bytes in
+// the same read, so that offset+length arithmetic near 2^63 is in scope
+func verifHarness_C08_content_length_near_limits() {
+	e := verifHTTPEngine()
+	// the last 4 of 19 decimal digits are symbolic: the values straddle 2^63
+	// (9223372036854775808) and include every value within 10^4 of it, so that
+	// offset+length arithmetic that wraps around is in scope; a second family
+	// has a short all-symbolic value (covered by content_length_value)
+	prefix := []string{"922337203685477", "92233720368547", "184467440737095"}[verifChoose("prefix", 3)]
+	d := verifBytes("cl", 19-len(prefix)+verifChoose("extra_digit", 2))
+	for _, c := range d {
+		verifAssume(verifIsDigit(c))
+	}
+	stream := append([]byte("POST / HTTP/1.1\r\nContent-Length: "+prefix), d...)
+	stream = append(stream, "\r\n\r\nabc"...)
+	if verifChoose("pipelined", 2) == 1 {
+		stream = append(stream, "GET / HTTP/1.1\r\n\r\n"...)
+	}
+	seen, err, _ := verifServerFeed(e, stream)
+	// the body cannot be complete: nothing may be delivered, whatever the value
+	verifAssertD(seen.reqs == 0, "incomplete-body-delivers-nothing", "")
+	if err != nil {
+		verifReach("rejected")
+	} else {
+		verifReach("waiting-for-body")
+	}
+	verifAssert(false, "witness")
+}
+
+func verifHarness_C08_chunk_size_near_limits() {
+	e := verifHTTPEngine()
+	prefix := []string{"7ffffffffffff", "3ffffffffffff", "ffffffffffff"}[verifChoose("prefix", 3)]
+	d := verifBytes("cs", 3+verifChoose("extra_digit", 2))
+	for _, c := range d {
+		verifAssume(verifIsHexByte(c))
+	}
+	stream := append([]byte("POST / HTTP/1.1\r\nTransfer-Encoding: chunked\r\n\r\n"+prefix), d...)
+	stream = append(stream, "\r\nabc\r\n0\r\n\r\n"...)
+	seen, _, _ := verifServerFeed(e, stream)
+	verifAssertD(seen.reqs == 0, "incomplete-chunk-delivers-nothing", "")
+	verifAssert(false, "witness")
+}
